@@ -4,7 +4,7 @@
 (* sector / FSInfo bytes: b = independent parse of the bytes (Geometry     *)
 (* record), r = what the library did.                                      *)
 (***************************************************************************)
-EXTENDS Integers, Sequences, FiniteSets, TLC, Json, IOUtils, Geometry
+EXTENDS Integers, Sequences, FiniteSets, TLC, Json, IOUtils, MountImpl
 
 VARIABLES l
 Rec == ndJsonDeserialize(IOEnv.TRACE)
@@ -31,6 +31,12 @@ Notes(e) ==
       /\ ((Has(e.use, "list") /\ e.use.list.k \in {"panic", "hang"}) \/ (Has(e.use, "stats") /\ e.use.stats.k \in {"panic", "hang"}) \/ Has(e.use, "hang"))
    THEN {"use_panics"} ELSE {}
 
+\* conformance of the code to MountImpl (the acceptance test as the code performs it): a difference is model drift, not a verdict
+NoFi == [inside |-> FALSE, lead |-> Zero, struc |-> Zero, trail |-> Zero]
+Drift(e) ==
+   IF e.op # "mnt" \/ e.r.k \notin {"ok", "err"} \/ Has(e, "trunc") \/ ~Has(e, "b") THEN {}
+   ELSE IF (e.r.k = "ok") = ImplAccept(e.b, e.strict, IF Has(e, "fi") THEN e.fi ELSE NoFi) THEN {} ELSE {"B.mount"}
+
 Init == l = 1
 Next ==
    /\ l <= Len(Rec)
@@ -38,6 +44,7 @@ Next ==
    /\ LET e == Rec[l] IN
       /\ \A t \in Viol(e) : PrintT(<<"VIOL", t, e.pid, e.i, "mnt">>)
       /\ \A t \in Notes(e) : PrintT(<<"NOTE", t, e.pid, e.i, "mnt">>)
+      /\ \A t \in Drift(e) : PrintT(<<"NOTE", t, e.pid, e.i, "mnt">>)
 Spec == Init /\ [][Next]_l
 TraceAccepted == TLCGet("stats").diameter = Len(Rec) + 1
 =============================================================================
